@@ -212,6 +212,44 @@ theorem chunks_cut_at_boundaries (file : Seq) (rs : List Rec) (id d sq : Seq)
     ∀ c ∈ cs, ∃ rs' id' d' sq', FaComplete c rs' id' d' sq' :=
   (pieces_parse (chunks_pieces splitFasta FastaCut splitFasta_ok b file cs h) rs id d sq hw).2
 
+/-- **parseFasta_append** (record locality): if `c1` is a whole number of records, `e` a non-empty run
+of end-of-line bytes and `c2 = '>' :: b :: t` any text starting with `>` (well-formed or not), then
+parsing `c1 ++ e ++ c2` as one chunk gives the records of `c1` followed by the records of `c2`, and
+fails exactly as the parse of `c2` fails. -/
+theorem parseFasta_append (c1 : Seq) (rs : List Rec) (id d sq : Seq) (h1 : FaComplete c1 rs id d sq)
+    (e : Seq) (he : AllEol e) (hne : e ≠ []) (b : UInt8) (t : Seq) :
+    parseFasta c1 = .ok (rs ++ [mkRec id d sq]) ∧
+    parseFasta (c1 ++ e ++ 62 :: b :: t) =
+      match parseFasta (62 :: b :: t) with
+      | .error x => .error x
+      | .ok r2 => .ok ((rs ++ [mkRec id d sq]) ++ r2) := by
+  refine ⟨parseFasta_complete h1, ?_⟩
+  obtain ⟨b1, t1, hc1⟩ := complete_shape h1
+  obtain ⟨pe, hrun⟩ := h1
+  have hinv : FaInv (.s6 id d sq pe) := faRun_inv c1 .s0 _ rs trivial hrun
+  have hsq : sq.isEmpty = false := by
+    cases sq with
+    | nil => exact absurd rfl hinv
+    | cons a t => rfl
+  have hL : c1 ++ e ++ 62 :: b :: t = 62 :: b1 :: (t1 ++ e ++ 62 :: b :: t) := by rw [hc1]; simp
+  rw [hL, parseFasta_eq_body, ← hL, parseFasta_eq_body]
+  have hgt : faStep (.s6 id d sq true) 62 = .ok (.s1, some (mkRec id d sq)) := by
+    simp [faStep, hsq]
+  have h0 : faStep .s0 62 = .ok (.s1, none) := by simp [faStep]
+  unfold faBody
+  rw [List.append_assoc, faRun_append, hrun]
+  simp only
+  rw [faRun_append, faRun_s6_eols_true e id d sq pe he hne]
+  simp only [faRun, hgt, h0]
+  cases faRun .s1 (b :: t) with
+  | error x => rfl
+  | ok p =>
+    obtain ⟨sT, rT⟩ := p
+    simp only
+    cases faFinish sT with
+    | error x => rfl
+    | ok l => simp
+
 theorem range_map_getD {α β : Type} (cs : List α) (d : α) (f : α → β) :
     (List.range cs.length).map (fun k => f (cs.getD k d)) = cs.map f := by
   apply List.ext_getElem
